@@ -175,12 +175,22 @@ CProperty(r) == LET a == Args[r.arg]  p == CParam(r) IN
 CBadProperty == SelectSeq(CRows, LAMBDA r : ~CProperty(r))
 CBadTranscription == SelectSeq(CRows, LAMBDA r : (r.oc = "ok") # BoxedCast(Args[r.arg], CParam(r)))
 
+(* data members exposed as functions (fun(&Class::member)): by whatever route the accessor is reached - plain call, dot notation, a function *)
+(* value, bind() - it hands out the member only of an object that IS of the member's class (or converts to it); anything else is an error *)
+MRows == SelectSeq(Rows, LAMBDA r : r.k = "m")
+MReceiverOk(r) == CASE r.member = "value" -> r.arg \in {"Pobj", "cPobj"}
+                    [] r.member = "bmember" -> r.arg \in {"Bobj", "Dobj"}                      \* a Derived converts to its Base
+MValue(r) == IF r.member = "value" THEN "77" ELSE "1"
+MProperty(r) == /\ (r.oc = "ok" => (MReceiverOk(r) /\ r.got = MValue(r)))              \* TypeSafe: never the bytes of something else
+                /\ (MReceiverOk(r) => r.oc = "ok")
+MBadProperty == SelectSeq(MRows, LAMBDA r : ~MProperty(r))
+
 (* each call enters exactly one overload exactly once - also when the entered function itself throws *)
 XRows == SelectSeq(Rows, LAMBDA r : r.k = "x")
 XBad == SelectSeq(XRows, LAMBDA r : r.n > 1)
 
 Show(s, n) == \A i \in 1..(IF Len(s) < n THEN Len(s) ELSE n) : PrintT(<<"BAD", s[i]>>)
-Counts == <<"rows", Len(Rows), "property", Len(UBadProperty) + Len(BBadProperty) + Len(CBadProperty) + Len(ABad),
+Counts == <<"rows", Len(Rows), "property", Len(UBadProperty) + Len(BBadProperty) + Len(CBadProperty) + Len(ABad) + Len(MBadProperty),
             "transcription", Len(UBadTranscription) + Len(BBadTranscription) + Len(CBadTranscription)>>
 \* the verdicts are written out so that the check can name the failing calls
 Verdicts == ndJsonSerialize(IOEnv.OUT,
@@ -188,6 +198,7 @@ Verdicts == ndJsonSerialize(IOEnv.OUT,
    [i \in 1..Len(BBadProperty) |-> [why |-> "property", row |-> BBadProperty[i]]] \o
    [i \in 1..Len(CBadProperty) |-> [why |-> "property", row |-> CBadProperty[i]]] \o
    [i \in 1..Len(ABad) |-> [why |-> "arity", row |-> ABad[i]]] \o
+   [i \in 1..Len(MBadProperty) |-> [why |-> "property", row |-> MBadProperty[i]]] \o
    [i \in 1..Len(XBad) |-> [why |-> "property", row |-> XBad[i]]] \o
    [i \in 1..Len(UBadTranscription) |-> [why |-> "transcription", row |-> UBadTranscription[i], predicted |-> UPredict(UBadTranscription[i])]] \o
    [i \in 1..Len(BBadTranscription) |-> [why |-> "transcription", row |-> BBadTranscription[i], predicted |-> BPredict(BBadTranscription[i])]] \o
